@@ -33,16 +33,626 @@ Section UmFacts.
     m_has_clear := true
   |}.
 
-  Lemma um_inv_init : forall ttl t, (0 <= ttl)%Z -> um_inv t (um_init ttl).
-  Admitted.
 
-  Global Instance um_ok : ModelOK um_model.
-  Admitted.
+  (* ================= helpers ================= *)
+  Lemma eqb_rfl : forall k : K, eqb k k = true.
+  Proof. intro k. destruct (eqb_spec k k) as [_|N]; [reflexivity | congruence]. Qed.
+
+  Lemma eqb_ne : forall a b : K, a <> b -> eqb a b = false.
+  Proof. intros a b N. destruct (eqb_spec a b) as [E|_]; [congruence | reflexivity]. Qed.
+
+  Section AssocFacts.
+    Context {A : Type}.
+
+    Lemma assoc_app : forall (k : K) (l l' : list (K * A)),
+        assoc k (l ++ l') = match assoc k l with Some a => Some a | None => assoc k l' end.
+    Proof.
+      induction l as [|[k' a] r IH]; intros l'; simpl; [reflexivity|].
+      destruct (eqb k k'); [reflexivity | apply IH].
+    Qed.
+
+    Lemma assoc_keys : forall (k : K) (l : list (K * A)), In k (keys l) <-> assoc k l <> None.
+    Proof.
+      induction l as [|[k' a] r IH]; simpl.
+      - split; [tauto | congruence].
+      - destruct (eqb_spec k k') as [E|N].
+        + subst. split; [congruence | auto].
+        + rewrite <- IH. split; [intros [E|I]; [congruence | exact I] | auto].
+    Qed.
+
+    Lemma assoc_none : forall (k : K) (l : list (K * A)), assoc k l = None <-> ~ In k (keys l).
+    Proof.
+      intros k l. rewrite assoc_keys. destruct (assoc k l) as [a|]; split; intro Hx.
+      - discriminate Hx.
+      - exfalso; apply Hx; discriminate.
+      - intro N; apply N; reflexivity.
+      - reflexivity.
+    Qed.
+
+    Lemma assoc_remk_same : forall (k : K) (l : list (K * A)), assoc k (remk k l) = None.
+    Proof.
+      induction l as [|[k' a] r IH]; simpl; [reflexivity|].
+      destruct (eqb k k') eqn:E; [exact IH | simpl; rewrite E; exact IH].
+    Qed.
+
+    Lemma assoc_remk_other : forall (k k' : K) (l : list (K * A)),
+        k' <> k -> assoc k' (remk k l) = assoc k' l.
+    Proof.
+      induction l as [|[k0 a] r IH]; intros N; simpl; [reflexivity|].
+      destruct (eqb_spec k k0) as [E|N0].
+      - subst k0. rewrite (eqb_ne k' k N). apply IH; exact N.
+      - simpl. destruct (eqb k' k0); [reflexivity | apply IH; exact N].
+    Qed.
+
+    Lemma in_remk : forall (k : K) x (l : list (K * A)), In x (remk k l) -> In x l.
+    Proof.
+      induction l as [|[k0 a] r IH]; simpl; [tauto|].
+      destruct (eqb k k0); simpl;
+        [intro I; right; apply IH; exact I
+        | intros [E|I]; [left; exact E | right; apply IH; exact I]].
+    Qed.
+
+    Lemma keys_remk_in : forall (k k' : K) (l : list (K * A)),
+        In k' (keys (remk k l)) -> In k' (keys l) /\ k' <> k.
+    Proof.
+      intros k k' l I. apply assoc_keys in I. destruct (eqb_spec k' k) as [E|N].
+      - subst. rewrite assoc_remk_same in I. congruence.
+      - rewrite assoc_remk_other in I by exact N. split; [apply assoc_keys; exact I | exact N].
+    Qed.
+
+    Lemma nodup_remk : forall (k : K) (l : list (K * A)), NoDup (keys l) -> NoDup (keys (remk k l)).
+    Proof.
+      induction l as [|[k0 a] r IH]; simpl; intros ND; [constructor|].
+      inversion ND as [|x xs NI ND']; subst.
+      destruct (eqb k k0); [apply IH; exact ND'|].
+      simpl. constructor; [|apply IH; exact ND'].
+      intro I. apply keys_remk_in in I. tauto.
+    Qed.
+
+    Lemma keys_filter_in : forall (P : K * A -> bool) k l, In k (keys (filter P l)) -> In k (keys l).
+    Proof.
+      unfold keys. intros P k l I. apply in_map_iff in I. destruct I as [x [E I]].
+      apply filter_In in I. apply in_map_iff. exists x. tauto.
+    Qed.
+
+    Lemma nodup_filter_keys : forall (P : K * A -> bool) l, NoDup (keys l) -> NoDup (keys (filter P l)).
+    Proof.
+      induction l as [|x r IH]; simpl; intros ND; [constructor|].
+      inversion ND as [|y ys NI ND']; subst.
+      destruct (P x); [|apply IH; exact ND'].
+      simpl. constructor; [|apply IH; exact ND'].
+      intro I. apply NI. eapply keys_filter_in; exact I.
+    Qed.
+
+    Lemma assoc_filter : forall (P : K * A -> bool) (k : K) l, NoDup (keys l) ->
+        assoc k (filter P l) =
+        match assoc k l with Some a => if P (k, a) then Some a else None | None => None end.
+    Proof.
+      induction l as [|[k' a] r IH]; simpl; intros ND; [reflexivity|].
+      inversion ND as [|y ys NI ND']; subst.
+      destruct (eqb_spec k k') as [E|N].
+      - subst k'. destruct (P (k, a)).
+        + simpl. rewrite eqb_rfl. reflexivity.
+        + rewrite (IH ND'). apply assoc_none in NI. simpl in NI. rewrite NI. reflexivity.
+      - destruct (P (k', a)).
+        + simpl. rewrite (eqb_ne k k' N). apply IH; exact ND'.
+        + apply IH; exact ND'.
+    Qed.
+
+    Lemma nodup_snoc : forall (l : list K) k, NoDup l -> ~ In k l -> NoDup (l ++ [k]).
+    Proof.
+      induction l as [|x r IH]; simpl; intros k ND NI.
+      - constructor; [simpl; tauto | constructor].
+      - inversion ND as [|y ys NI' ND']; subst. constructor.
+        + intro I. apply in_app_or in I. destruct I as [I|[E|[]]]; [tauto | subst; tauto].
+        + apply IH; tauto.
+    Qed.
+
+    Lemma filter_all : forall (P : A -> bool) l, (forall x, In x l -> P x = true) -> filter P l = l.
+    Proof.
+      induction l as [|x r IH]; simpl; intros Hl; [reflexivity|].
+      rewrite (Hl x) by (left; reflexivity). f_equal. apply IH. intros y I. apply Hl. right; exact I.
+    Qed.
+  End AssocFacts.
+
+  (* ---- sortedness of the deadline column ---- *)
+  Lemma ss_cons_iff : forall (x : K * (V * Z)) l,
+      StronglySorted Z.le (map um_dl (x :: l)) <->
+      StronglySorted Z.le (map um_dl l) /\ (forall y, In y l -> (um_dl x <= um_dl y)%Z).
+  Proof.
+    intros x l. simpl. split.
+    - intro S. apply StronglySorted_inv in S. destruct S as [S F]. split; [exact S|].
+      intros y I. rewrite Forall_forall in F. apply F. apply in_map. exact I.
+    - intros [S F]. constructor; [exact S|]. rewrite Forall_forall. intros z I.
+      apply in_map_iff in I. destruct I as [y [E I]]. subst z. apply F. exact I.
+  Qed.
+
+  Lemma ss_filter : forall (P : K * (V * Z) -> bool) l,
+      StronglySorted Z.le (map um_dl l) -> StronglySorted Z.le (map um_dl (filter P l)).
+  Proof.
+    induction l as [|x r IH]; intros S; [exact S|].
+    apply ss_cons_iff in S. destruct S as [S F]. simpl.
+    destruct (P x); [|apply IH; exact S].
+    apply ss_cons_iff. split; [apply IH; exact S|].
+    intros y I. apply filter_In in I. apply F. tauto.
+  Qed.
+
+  Lemma ss_remk : forall k (l : list (K * (V * Z))),
+      StronglySorted Z.le (map um_dl l) -> StronglySorted Z.le (map um_dl (remk k l)).
+  Proof.
+    induction l as [|[k0 a] r IH]; intros S; [exact S|].
+    apply ss_cons_iff in S. destruct S as [S F]. simpl.
+    destruct (eqb k k0); [apply IH; exact S|].
+    apply ss_cons_iff. split; [apply IH; exact S|].
+    intros y I. apply F. eapply in_remk; exact I.
+  Qed.
+
+  Lemma ss_snoc : forall (l : list (K * (V * Z))) x,
+      StronglySorted Z.le (map um_dl l) -> (forall y, In y l -> (um_dl y <= um_dl x)%Z) ->
+      StronglySorted Z.le (map um_dl (l ++ [x])).
+  Proof.
+    induction l as [|z r IH]; intros x S F.
+    - simpl. constructor; constructor.
+    - apply ss_cons_iff in S. destruct S as [S Fz]. change ((z :: r) ++ [x]) with (z :: (r ++ [x])).
+      apply ss_cons_iff. split.
+      + apply IH; [exact S|]. intros y I. apply F. right; exact I.
+      + intros y I. apply in_app_or in I. destruct I as [I|[E|[]]].
+        * apply Fz; exact I.
+        * subst y. apply F. left; reflexivity.
+  Qed.
+
+  (* ---- the purge as a function without accumulator ---- *)
+  Fixpoint dropdead (now : Z) (l : list (K * (V * Z))) : list (K * (V * Z)) :=
+    match l with
+    | [] => []
+    | x :: r => if (um_dl x <=? now)%Z then dropdead now r else l
+    end.
+
+  Lemma prune_list_spec : forall now l n,
+      fst (um_prune_list now l n) = dropdead now l /\
+      snd (um_prune_list now l n) + length (dropdead now l) = n + length l.
+  Proof.
+    induction l as [|[k [v e]] r IH]; intros n; simpl.
+    - split; [reflexivity | lia].
+    - unfold um_dl; simpl. destruct (e <=? now)%Z.
+      + destruct (IH (S n)) as [A B]. split; [exact A | lia].
+      + simpl. split; [reflexivity | lia].
+  Qed.
+
+  Lemma um_prune_fst : forall (s : um K V) now,
+      fst (um_prune s now) = um_with s (dropdead now (um_list s)).
+  Proof.
+    intros s now. unfold um_prune.
+    pose proof (prune_list_spec now (um_list s) 0) as [A _].
+    destruct (um_prune_list now (um_list s) 0) as [l n]. simpl in *. subst l. reflexivity.
+  Qed.
+
+  Lemma um_prune_snd : forall (s : um K V) now,
+      snd (um_prune s now) + length (dropdead now (um_list s)) = length (um_list s).
+  Proof.
+    intros s now. unfold um_prune.
+    pose proof (prune_list_spec now (um_list s) 0) as [_ B].
+    destruct (um_prune_list now (um_list s) 0) as [l n]. simpl in *. exact B.
+  Qed.
+
+  Lemma dropdead_filter : forall now l, StronglySorted Z.le (map um_dl l) ->
+      dropdead now l = filter (fun x => (now <? um_dl x)%Z) l.
+  Proof.
+    induction l as [|x r IH]; intros S; [reflexivity|].
+    apply ss_cons_iff in S. destruct S as [S F]. simpl.
+    destruct (Z.leb_spec (um_dl x) now) as [L|L]; destruct (Z.ltb_spec now (um_dl x)) as [L'|L']; try lia.
+    - apply IH; exact S.
+    - f_equal. symmetry. apply filter_all. intros y I. apply Z.ltb_lt. specialize (F y I). lia.
+  Qed.
+
+  Lemma filter_split_len : forall now (l : list (K * (V * Z))),
+      length (filter (fun x => (um_dl x <=? now)%Z) l) + length (filter (fun x => (now <? um_dl x)%Z) l)
+      = length l.
+  Proof.
+    induction l as [|x r IH]; simpl; [reflexivity|].
+    destruct (Z.leb_spec (um_dl x) now) as [L|L]; destruct (Z.ltb_spec now (um_dl x)) as [L'|L'];
+      try lia; simpl; lia.
+  Qed.
+
+  Lemma dropdead_live : forall now l, (forall x, In x l -> (now < um_dl x)%Z) -> dropdead now l = l.
+  Proof.
+    intros now [|x r] Hl; simpl; [reflexivity|].
+    destruct (Z.leb_spec (um_dl x) now) as [L|L]; [|reflexivity].
+    specialize (Hl x (or_introl eq_refl)). lia.
+  Qed.
+
+  Lemma dropdead_dropdead : forall now now' l, (now <= now')%Z ->
+      dropdead now' (dropdead now l) = dropdead now' l.
+  Proof.
+    induction l as [|x r IH]; intros L; simpl; [reflexivity|].
+    destruct (Z.leb_spec (um_dl x) now) as [A|A].
+    - destruct (Z.leb_spec (um_dl x) now') as [B|B]; [apply IH; exact L | lia].
+    - reflexivity.
+  Qed.
+
+  Lemma dropdead_in : forall now x l, In x (dropdead now l) -> In x l.
+  Proof.
+    induction l as [|y r IH]; simpl; [tauto|].
+    destruct (um_dl y <=? now)%Z; [intro I; right; apply IH; exact I | simpl; tauto].
+  Qed.
+
+  Lemma um_with_self : forall s : um K V, um_with s (um_list s) = s.
+  Proof. intros [ttl l]; reflexivity. Qed.
+
+  Lemma um_inv_init : forall ttl t, (0 <= ttl)%Z -> um_inv t (um_init ttl).
+  Proof.
+    intros ttl t L. unfold um_inv, um_init; simpl.
+    split; [exact L|]. split; [constructor|]. split; [constructor|]. intros x [].
+  Qed.
+
+  (* ---- the invariant through purge / insert / erase ---- *)
+  Lemma um_inv_mono : forall t t' (s : um K V), um_inv t s -> (t <= t')%Z -> um_inv t' s.
+  Proof.
+    intros t t' s (A & B & C & D) L. repeat split; try assumption.
+    intros x I. specialize (D x I). lia.
+  Qed.
+
+  Lemma um_inv_prune : forall t (s : um K V) now, um_inv t s -> (t <= now)%Z ->
+      um_inv now (um_with s (dropdead now (um_list s))).
+  Proof.
+    intros t s now (A & B & C & D) L. unfold um_inv; simpl.
+    rewrite (dropdead_filter now _ C).
+    split; [exact A|]. split; [apply nodup_filter_keys; exact B|]. split; [apply ss_filter; exact C|].
+    intros x I. apply filter_In in I. destruct I as [I _]. specialize (D x I). lia.
+  Qed.
+
+  Lemma um_ins_inv : forall now (s : um K V) k v a s' b,
+      um_inv now s -> um_ins s k v a (now + ms (um_ttl s))%Z = (s', b) ->
+      um_inv now s' /\ um_ttl s' = um_ttl s.
+  Proof.
+    intros now s k v a s' b (A & B & C & D) E. unfold um_ins in E.
+    destruct (assoc k (um_list s)) as [x|] eqn:Ek.
+    - destruct (a_upd a); inversion E; subst; clear E; [|split; [repeat split; assumption | reflexivity]].
+      split; [|reflexivity]. unfold um_inv; simpl.
+      split; [exact A|]. split; [|split].
+      + unfold keys. rewrite map_app. simpl. apply nodup_snoc; [apply nodup_remk; exact B|].
+        intro I. apply keys_remk_in in I. tauto.
+      + apply ss_snoc; [apply ss_remk; exact C|]. intros y I. apply in_remk in I.
+        specialize (D y I). unfold um_dl at 2; simpl. exact D.
+      + intros y I. apply in_app_or in I. destruct I as [I|[I|[]]].
+        * apply in_remk in I. apply D; exact I.
+        * subst y. unfold um_dl; simpl. lia.
+    - destruct (a_ins a); inversion E; subst; clear E; [|split; [repeat split; assumption | reflexivity]].
+      split; [|reflexivity]. unfold um_inv; simpl.
+      split; [exact A|]. split; [|split].
+      + unfold keys. rewrite map_app. simpl. apply nodup_snoc; [exact B|].
+        apply assoc_none; exact Ek.
+      + apply ss_snoc; [exact C|]. intros y I.
+        specialize (D y I). unfold um_dl at 2; simpl. exact D.
+      + intros y I. apply in_app_or in I. destruct I as [I|[I|[]]].
+        * apply D; exact I.
+        * subst y. unfold um_dl; simpl. lia.
+  Qed.
+
+  Lemma um_erase_inv : forall t (s : um K V) k s' b,
+      um_inv t s -> um_erase s k = (s', b) -> um_inv t s' /\ um_ttl s' = um_ttl s.
+  Proof.
+    intros t s k s' b (A & B & C & D) E. unfold um_erase in E.
+    destruct (assoc k (um_list s)) as [x|]; inversion E; subst; clear E;
+      [|split; [repeat split; assumption | reflexivity]].
+    split; [|reflexivity]. unfold um_inv; simpl.
+    split; [exact A|]. split; [apply nodup_remk; exact B|]. split; [apply ss_remk; exact C|].
+    intros y I. apply in_remk in I. apply D; exact I.
+  Qed.
+
+  Lemma um_ins_range_inv : forall now ttl a l (s : um K V) n s' n',
+      um_inv now s -> um_ttl s = ttl -> um_ins_range s l a (now + ms ttl)%Z n = (s', n') ->
+      um_inv now s' /\ um_ttl s' = ttl.
+  Proof.
+    induction l as [|[[z k] v] r IH]; intros s n s' n' I T E; simpl in E.
+    - inversion E; subst. split; [exact I | reflexivity].
+    - destruct (um_ins s k v a (now + ms ttl)%Z) as [s1 b] eqn:E1.
+      rewrite <- T in E1. destruct (um_ins_inv _ _ _ _ _ _ _ I E1) as [I1 T1].
+      eapply IH; [exact I1 | congruence | exact E].
+  Qed.
+
+  Lemma um_erase_range_inv : forall t l (s : um K V) n s' n',
+      um_inv t s -> um_erase_range s l n = (s', n') -> um_inv t s' /\ um_ttl s' = um_ttl s.
+  Proof.
+    induction l as [|k r IH]; intros s n s' n' I E; simpl in E.
+    - inversion E; subst. split; [exact I | reflexivity].
+    - destruct (um_erase s k) as [s1 b] eqn:E1.
+      destruct (um_erase_inv _ _ _ _ _ I E1) as [I1 T1].
+      destruct (IH _ _ _ _ I1 E) as [I2 T2]. split; [exact I2 | congruence].
+  Qed.
 
   (* the invariant also survives the range calls *)
   Lemma um_inv_step_any : forall t (s : um K V) o now rnd s' r,
       um_inv t s -> (t <= now)%Z -> um_step s o now rnd = (s', r) -> um_inv now s'.
-  Admitted.
+  Proof.
+    intros t s o now rnd s' r I L E.
+    pose proof (um_inv_prune t s now I L) as IP.
+    pose proof (um_inv_mono t now s I L) as IM.
+    unfold um_step in E; destruct o; try rewrite um_prune_fst in E;
+      try (inversion E; subst; assumption).
+    - (* Insert *)
+      destruct (um_ins _ k v a _) as [s1 b] eqn:E1. inversion E; subst; clear E.
+      change (um_ttl s) with (um_ttl (um_with s (dropdead now (um_list s)))) in E1.
+      apply (um_ins_inv _ _ _ _ _ _ _ IP E1).
+    - (* InsertRange *)
+      destruct (um_ins_range _ l a _ 0) as [s1 n] eqn:E1. inversion E; subst; clear E.
+      eapply (um_ins_range_inv now (um_ttl s)); [exact IP | reflexivity | exact E1].
+    - (* Erase *)
+      destruct (um_erase _ k) as [s1 b] eqn:E1. inversion E; subst; clear E.
+      apply (um_erase_inv _ _ _ _ _ IP E1).
+    - (* EraseRange *)
+      destruct (um_erase_range _ l 0) as [s1 n] eqn:E1. inversion E; subst; clear E.
+      apply (um_erase_range_inv _ _ _ _ _ _ IP E1).
+    - (* Clear *)
+      inversion E; subst. destruct I as (A & _). unfold um_inv; simpl.
+      split; [exact A|]. split; [constructor|]. split; [constructor|]. intros x [].
+    - (* Clean *)
+      destruct (um_prune s now) as [s0 n] eqn:E1. inversion E; subst; clear E.
+      replace s' with (fst (um_prune s now)) by (rewrite E1; reflexivity).
+      rewrite um_prune_fst. exact IP.
+  Qed.
+
+  (* ---- content after the purge / insert / erase ---- *)
+  Lemma assoc_prune : forall t (s : um K V) now k, um_inv t s ->
+      assoc k (dropdead now (um_list s)) =
+      match assoc k (um_list s) with
+      | Some a => if (now <? snd a)%Z then Some a else None
+      | None => None
+      end.
+  Proof.
+    intros t s now k (A & B & C & D). rewrite (dropdead_filter now _ C).
+    rewrite (assoc_filter _ k _ B). reflexivity.
+  Qed.
+
+  Lemma um_ins_effect : forall (s : um K V) k v a e s' b, um_ins s k v a e = (s', b) ->
+      um_ttl s' = um_ttl s /\
+      b = (match assoc k (um_list s) with Some _ => a_upd a | None => a_ins a end) /\
+      (b = true -> assoc k (um_list s') = Some (v, e)) /\
+      (b = false -> s' = s) /\
+      (forall k', k' <> k -> assoc k' (um_list s') = assoc k' (um_list s)).
+  Proof.
+    intros s k v a e s' b E. unfold um_ins in E.
+    destruct (assoc k (um_list s)) as [x|] eqn:Ek.
+    - destruct (a_upd a); inversion E; subst; clear E; simpl.
+      + repeat split; try congruence.
+        * intros _. rewrite assoc_app, assoc_remk_same. simpl. rewrite eqb_rfl. reflexivity.
+        * intros k' N. rewrite assoc_app, (assoc_remk_other k k' _ N). simpl.
+          rewrite (eqb_ne k' k N). destruct (assoc k' (um_list s)); reflexivity.
+      + repeat split; congruence.
+    - destruct (a_ins a); inversion E; subst; clear E; simpl.
+      + repeat split; try congruence.
+        * intros _. rewrite assoc_app, Ek. simpl. rewrite eqb_rfl. reflexivity.
+        * intros k' N. rewrite assoc_app. simpl.
+          rewrite (eqb_ne k' k N). destruct (assoc k' (um_list s)); reflexivity.
+      + repeat split; congruence.
+  Qed.
+
+  Lemma um_erase_effect : forall (s : um K V) k s' b, um_erase s k = (s', b) ->
+      um_ttl s' = um_ttl s /\ assoc k (um_list s') = None /\
+      (b = true <-> assoc k (um_list s) <> None) /\ (b = false -> s' = s) /\
+      (forall k', k' <> k -> assoc k' (um_list s') = assoc k' (um_list s)).
+  Proof.
+    intros s k s' b E. unfold um_erase in E.
+    destruct (assoc k (um_list s)) as [x|] eqn:Ek; inversion E; subst; clear E; simpl.
+    - split; [reflexivity|]. split; [apply assoc_remk_same|].
+      split; [split; congruence|]. split; [congruence|].
+      intros k' N. apply assoc_remk_other; exact N.
+    - split; [reflexivity|]. split; [exact Ek|].
+      split; [split; congruence|]. split; [reflexivity|]. reflexivity.
+  Qed.
+
+  Lemma livek_assoc : forall (s : um K V) now k,
+      livek (um_get s) now k <-> exists v e, assoc k (um_list s) = Some (v, e) /\ (now < e)%Z.
+  Proof.
+    intros s now k. unfold livek, um_get. split.
+    - intros (v & d & E & L). destruct (assoc k (um_list s)) as [[v0 e0]|]; [|discriminate].
+      inversion E; subst. simpl in L. apply Z.ltb_lt in L. exists v, e0. split; [reflexivity | exact L].
+    - intros (v & e & E & L). rewrite E. exists v, (Some e). split; [reflexivity|].
+      simpl. apply Z.ltb_lt; exact L.
+  Qed.
+
+  Lemma deadk_assoc : forall (s : um K V) now k,
+      deadk (um_get s) now k <-> exists v e, assoc k (um_list s) = Some (v, e) /\ (e <= now)%Z.
+  Proof.
+    intros s now k. unfold deadk, um_get. split.
+    - intros (v & d & E & L). destruct (assoc k (um_list s)) as [[v0 e0]|]; [|discriminate].
+      inversion E; subst. exists v, d. split; [reflexivity | exact L].
+    - intros (v & e & E & L). rewrite E. exists v, e. split; [reflexivity | exact L].
+  Qed.
+
+  Lemma get_none_assoc : forall (s : um K V) k, um_get s k = None <-> assoc k (um_list s) = None.
+  Proof.
+    intros s k. unfold um_get. destruct (assoc k (um_list s)) as [[v e]|]; split; congruence.
+  Qed.
+
+  Lemma get_eq_assoc : forall (s s' : um K V) k k',
+      assoc k (um_list s) = assoc k' (um_list s') -> um_get s k = um_get s' k'.
+  Proof. intros s s' k k' E. unfold um_get. rewrite E. reflexivity. Qed.
+
+  (* ---- the ModelOK fields ---- *)
+  Lemma umf_keys_get : forall t (s : um K V) k, um_inv t s ->
+      (In k (keys (um_list s)) <-> um_get s k <> None).
+  Proof.
+    intros t s k _. rewrite assoc_keys. unfold um_get.
+    destruct (assoc k (um_list s)) as [[v e]|]; split; congruence.
+  Qed.
+
+  Lemma umf_view : forall t (s : um K V) now k, um_inv t s -> (t <= now)%Z ->
+      um_view s now k = view_of (um_get s) now k.
+  Proof.
+    intros t s now k I _. unfold um_view, um_find, view_of, um_get.
+    rewrite um_prune_fst. simpl. rewrite (assoc_prune t s now k I).
+    destruct (assoc k (um_list s)) as [[v e]|]; [|reflexivity]. simpl.
+    destruct (now <? e)%Z; reflexivity.
+  Qed.
+
+  (* every single call either leaves an unaddressed key's entry alone or shows the purged one *)
+  Lemma um_step_frame : forall (s : um K V) o now rnd s' r k',
+      single o = true -> touches o k' = false -> um_step s o now rnd = (s', r) ->
+      assoc k' (um_list s') = assoc k' (um_list s) \/
+      assoc k' (um_list s') = assoc k' (dropdead now (um_list s)).
+  Proof.
+    intros s o now rnd s' r k' Sg T E.
+    unfold um_step in E; destruct o; simpl in Sg, T; try discriminate;
+      try rewrite um_prune_fst in E; try (inversion E; subst; auto; fail).
+    - (* Insert *)
+      destruct (um_ins _ k v a _) as [s1 b] eqn:E1. inversion E; subst; clear E.
+      apply um_ins_effect in E1. destruct E1 as (_ & _ & _ & _ & F).
+      right. rewrite F; [reflexivity|]. intro X; subst. rewrite eqb_rfl in T. discriminate.
+    - (* Erase *)
+      destruct (um_erase _ k) as [s1 b] eqn:E1. inversion E; subst; clear E.
+      apply um_erase_effect in E1. destruct E1 as (_ & _ & _ & _ & F).
+      right. rewrite F; [reflexivity|]. intro X; subst. rewrite eqb_rfl in T. discriminate.
+    - (* Clean *)
+      destruct (um_prune s now) as [s0 n] eqn:E1. inversion E; subst; clear E.
+      replace s' with (fst (um_prune s now)) by (rewrite E1; reflexivity).
+      rewrite um_prune_fst. right. reflexivity.
+  Qed.
+
+  Lemma umf_no_appear : forall t (s : um K V) o now rnd s' r k', um_inv t s -> (t <= now)%Z ->
+      single o = true -> True -> um_step s o now rnd = (s', r) ->
+      touches o k' = false -> um_get s' k' <> None -> um_get s' k' = um_get s k'.
+  Proof.
+    intros t s o now rnd s' r k' I L Sg _ E T NN.
+    destruct (um_step_frame s o now rnd s' r k' Sg T E) as [F|F].
+    - apply get_eq_assoc; exact F.
+    - rewrite (assoc_prune t s now k' I) in F. unfold um_get in *. rewrite F in *.
+      destruct (assoc k' (um_list s)) as [[v e]|]; [|congruence]. simpl in *.
+      destruct (now <? e)%Z; congruence.
+  Qed.
+
+  Lemma umf_not_lost : forall t (s : um K V) o now rnd s' r k', um_inv t s -> (t <= now)%Z ->
+      single o = true -> um_step s o now rnd = (s', r) ->
+      touches o k' = false -> lost_live (um_get s) (um_get s') now k' -> False.
+  Proof.
+    intros t s o now rnd s' r k' I L Sg E T [Lv N].
+    apply livek_assoc in Lv. destruct Lv as (v & e & Ea & Le).
+    apply get_none_assoc in N.
+    destruct (um_step_frame s o now rnd s' r k' Sg T E) as [F|F].
+    - congruence.
+    - rewrite (assoc_prune t s now k' I), Ea in F. simpl in F.
+      destruct (Z.ltb_spec now e); [congruence | lia].
+  Qed.
+
+  Lemma umf_find : forall t (s : um K V) k (pk : bool) now (rnd : list nat) s' r,
+      um_inv t s -> (t <= now)%Z -> True ->
+      um_step s (Find k pk) now rnd = (s', r) ->
+      r = RO (um_view s now k) /\ (um_view s now k = None -> um_get s' k = None).
+  Proof.
+    intros t s k pk now rnd s' r I L _ E. simpl in E. inversion E; subst; clear E.
+    split; [reflexivity|]. unfold um_view, um_find, um_get.
+    destruct (assoc k (um_list (fst (um_prune s now)))) as [[v e]|]; congruence.
+  Qed.
+
+  Lemma umf_ins : forall t (s : um K V) (ttl : Z) k v a now (rnd : list nat) s' r,
+      um_inv t s -> (t <= now)%Z -> True ->
+      um_step s (Insert ttl k v a) now rnd = (s', r) ->
+      exists b, r = RB b /\
+        (livek (um_get s) now k -> b = a_upd a) /\
+        (um_get s k = None -> b = a_ins a) /\
+        (deadk (um_get s) now k -> (a_ins a = true -> b = true) /\
+                                    (b = true -> a_ins a = true \/ a_upd a = true)) /\
+        (b = true -> um_get s' k = Some (v, Some (now + ms (um_ttl s))%Z)) /\
+        (b = false -> keeps (um_get s) (um_get s') now k).
+  Proof.
+    intros t s ttl k v a now rnd s' r I L _ E. unfold um_step in E. rewrite um_prune_fst in E.
+    destruct (um_ins _ k v a _) as [s1 b] eqn:E1. inversion E; subst; clear E.
+    apply um_ins_effect in E1. destruct E1 as (_ & Eb & Ew & Er & _). simpl in Eb.
+    rewrite (assoc_prune t s now k I) in Eb.
+    exists b. split; [reflexivity|].
+    rewrite livek_assoc, deadk_assoc, get_none_assoc.
+    destruct (assoc k (um_list s)) as [[v0 e0]|] eqn:Ea.
+    - simpl in Eb. destruct (Z.ltb_spec now e0) as [Lt|Ge].
+      + (* live *)
+        split; [intros _; exact Eb|]. split; [congruence|].
+        split; [intros (v1 & e1 & X & Y); inversion X; subst; lia|].
+        split; [intros Bt; unfold um_get; rewrite (Ew Bt); reflexivity|].
+        intros Bf. left. rewrite (Er Bf). apply get_eq_assoc. simpl.
+        rewrite (assoc_prune t s now k I), Ea. simpl.
+        destruct (Z.ltb_spec now e0); [reflexivity | lia].
+      + (* dead *)
+        split; [intros (v1 & e1 & X & Y); inversion X; subst; lia|]. split; [congruence|].
+        split; [intros _; split; [congruence | intros Bt; left; congruence]|].
+        split; [intros Bt; unfold um_get; rewrite (Ew Bt); reflexivity|].
+        intros Bf. right. split.
+        * rewrite (Er Bf). apply get_none_assoc. simpl.
+          rewrite (assoc_prune t s now k I), Ea. simpl.
+          destruct (Z.ltb_spec now e0); [lia | reflexivity].
+        * apply deadk_assoc. exists v0, e0. split; [exact Ea | exact Ge].
+    - split; [intros (v1 & e1 & X & Y); discriminate|]. split; [intros _; exact Eb|].
+      split; [intros (v1 & e1 & X & Y); discriminate|].
+      split; [intros Bt; unfold um_get; rewrite (Ew Bt); reflexivity|].
+      intros Bf. left. rewrite (Er Bf). apply get_eq_assoc. simpl.
+      rewrite (assoc_prune t s now k I), Ea. reflexivity.
+  Qed.
+
+  Lemma umf_erase : forall t (s : um K V) k now (rnd : list nat) s' r,
+      um_inv t s -> (t <= now)%Z -> True ->
+      um_step s (Erase k) now rnd = (s', r) ->
+      exists b, r = RB b /\ um_get s' k = None /\
+        (livek (um_get s) now k -> b = true) /\ (b = true -> um_get s k <> None).
+  Proof.
+    intros t s k now rnd s' r I L _ E. unfold um_step in E. rewrite um_prune_fst in E.
+    destruct (um_erase _ k) as [s1 b] eqn:E1. inversion E; subst; clear E.
+    apply um_erase_effect in E1. destruct E1 as (_ & En & Eb & _ & _). simpl in Eb.
+    rewrite (assoc_prune t s now k I) in Eb.
+    exists b. split; [reflexivity|]. split; [apply get_none_assoc; exact En|].
+    rewrite livek_assoc. split.
+    - intros (v & e & Ea & Lt). apply Eb. rewrite Ea. simpl.
+      destruct (Z.ltb_spec now e); [congruence | lia].
+    - intros Bt. apply Eb in Bt. rewrite get_none_assoc.
+      destruct (assoc k (um_list s)); congruence.
+  Qed.
+
+  Lemma umf_clean : forall t (s : um K V) now (rnd : list nat) s' r,
+      um_inv t s -> (t <= now)%Z -> True ->
+      um_step s Clean now rnd = (s', r) ->
+      exists n, r = RN n /\ n + um_size s' = um_size s /\
+        (forall k, deadk (um_get s) now k -> um_get s' k = None) /\
+        (forall k, ~ deadk (um_get s) now k -> um_get s' k = um_get s k).
+  Proof.
+    intros t s now rnd s' r I L _ E. unfold um_step in E.
+    pose proof (um_prune_fst s now) as Pf. pose proof (um_prune_snd s now) as Ps.
+    destruct (um_prune s now) as [s0 n]. simpl in Pf, Ps. inversion E; subst; clear E.
+    exists n. split; [reflexivity|]. split; [unfold um_size; simpl; exact Ps|]. split.
+    - intros k Dk. apply deadk_assoc in Dk. destruct Dk as (v & e & Ea & Le).
+      apply get_none_assoc. simpl. rewrite (assoc_prune t s now k I), Ea. simpl.
+      destruct (Z.ltb_spec now e); [lia | reflexivity].
+    - intros k ND. apply get_eq_assoc. simpl. rewrite (assoc_prune t s now k I).
+      destruct (assoc k (um_list s)) as [[v e]|] eqn:Ea; [|reflexivity]. simpl.
+      destruct (Z.ltb_spec now e) as [Lt|Ge]; [reflexivity|].
+      exfalso. apply ND. apply deadk_assoc. exists v, e. split; [exact Ea | exact Ge].
+  Qed.
+
+  Global Instance um_ok : ModelOK um_model.
+  Proof.
+    constructor; simpl.
+    - (* keys_nodup *) intros t s (_ & B & _). exact B.
+    - (* keys_get *) exact umf_keys_get.
+    - (* size *) intros t s _. unfold um_size, keys. rewrite map_length. reflexivity.
+    - (* bound *) intros; discriminate.
+    - (* inv_mono *) exact um_inv_mono.
+    - (* view *) exact umf_view.
+    - (* inv_step *) intros t s o now rnd s' r I L _ _ E. split; [|reflexivity].
+      exact (um_inv_step_any t s o now rnd s' r I L E).
+    - (* no_appear *) exact umf_no_appear.
+    - (* loss *) intros t s o now rnd s' r k' I L Sg _ E T LL. exfalso.
+      exact (umf_not_lost t s o now rnd s' r k' I L Sg E T LL).
+    - (* find *) exact umf_find.
+    - (* find_use *) intros t s k pk now rnd s' r _ _ _ E. inversion E; subst. split; reflexivity.
+    - (* ins *) intros t s ttl k v a now rnd s' r I L T E.
+      destruct (umf_ins t s ttl k v a now rnd s' r I L T E) as (b & A1 & A2 & A3 & A4 & A5 & A6).
+      exists b. repeat (split; [assumption|]). intros; discriminate.
+    - (* erase *) exact umf_erase.
+    - (* clean *) exact umf_clean.
+    - (* clear *) intros t s now rnd s' r _ _ _ E. inversion E; subst. repeat split.
+    - (* size_op *) reflexivity.
+    - (* empty_op *) reflexivity.
+    - (* cap_op *) intros; discriminate.
+    - (* dynage *) intros t s now rnd s' r _ _ E k. inversion E; subst. reflexivity.
+    - (* updttl *) intros t s d now rnd s' r _ _ E k. inversion E; subst. reflexivity.
+  Qed.
+
 
   (* ---------------- C17: the purge ---------------- *)
   (* do_prune(now) removes exactly the entries dead at now, keeps the others in order,
@@ -52,7 +662,14 @@ Section UmFacts.
       um_list s' = filter (fun x => (now <? um_dl x)%Z) (um_list s) /\
       n = length (filter (fun x => (um_dl x <=? now)%Z) (um_list s)) /\
       um_size s' + n = um_size s /\ um_ttl s' = um_ttl s.
-  Admitted.
+  Proof.
+    intros t s now s' n (A & B & C & D) E.
+    pose proof (um_prune_fst s now) as Pf. pose proof (um_prune_snd s now) as Ps.
+    rewrite E in Pf, Ps. simpl in Pf, Ps. subst s'. unfold um_size. simpl.
+    rewrite (dropdead_filter now _ C) in Ps |- *.
+    pose proof (filter_split_len now (um_list s)) as FL.
+    split; [reflexivity|]. split; [lia|]. split; [lia | reflexivity].
+  Qed.
 
   (* insert, erase and every lookup run that purge first (and clean is that purge) *)
   Definition purging (o : op K V) : bool :=
@@ -61,20 +678,167 @@ Section UmFacts.
     | FindRangeFill _ _ | Clean => true
     | _ => false
     end.
-  Theorem um_purge_first : forall t (s : um K V) o now rnd,
-      um_inv t s -> purging o = true ->
-      um_step s o now rnd = um_step (fst (um_prune s now)) o now rnd.
-  Admitted.
+
+  (* purging twice (the second time not earlier) is purging once at the later instant *)
+  Lemma um_prune_idem : forall (s : um K V) now now', (now <= now')%Z ->
+      fst (um_prune (fst (um_prune s now)) now') = fst (um_prune s now').
+  Proof.
+    intros s now now' L. rewrite !um_prune_fst. unfold um_with; simpl.
+    rewrite (dropdead_dropdead now now' _ L). reflexivity.
+  Qed.
+
+  Lemma um_prune_ttl : forall (s : um K V) now, um_ttl (fst (um_prune s now)) = um_ttl s.
+  Proof. intros s now. rewrite um_prune_fst. reflexivity. Qed.
+
+  Lemma um_clean_fst : forall (s : um K V) now rnd,
+      fst (um_step s Clean now rnd) = fst (um_prune s now).
+  Proof. intros s now rnd. unfold um_step. destruct (um_prune s now); reflexivity. Qed.
+
+  (* STATEMENT-PROBLEM: the statement below (um_purge_first, as given) is FALSE for o = Clean:
+     clean returns the number of entries the purge removed, and on the already purged state
+     that number is 0.  Counterexample (proved below as um_purge_first_clean_counterexample):
+       s = {| um_ttl := 1; um_list := [(1, (7, 5))] |}, um_inv 0 s, now = 5:
+       um_step s Clean 5 [] = ({| um_ttl := 1; um_list := [] |}, RN 1)  but
+       um_step (fst (um_prune s 5)) Clean 5 [] = ({| um_ttl := 1; um_list := [] |}, RN 0).
+     Original statement, kept verbatim (it cannot be proved, so it is not declared):
+
+       Theorem um_purge_first : forall t (s : um K V) o now rnd,
+           um_inv t s -> purging o = true ->
+           um_step s o now rnd = um_step (fst (um_prune s now)) o now rnd.
+
+     Closest true variant, um_purge_first_ok: the successor states always agree, and the
+     whole step (state and result) agrees for every purging call other than Clean.  The
+     invariant is not needed. *)
+  Theorem um_purge_first_ok : forall (s : um K V) o now rnd,
+      purging o = true ->
+      fst (um_step s o now rnd) = fst (um_step (fst (um_prune s now)) o now rnd) /\
+      (o <> Clean -> um_step s o now rnd = um_step (fst (um_prune s now)) o now rnd).
+  Proof.
+    intros s o now rnd P.
+    destruct o; simpl in P; try discriminate;
+      try (unfold um_step; cbv zeta; rewrite (um_prune_idem s now now) by lia;
+           try rewrite um_prune_ttl; split; [reflexivity | intros _; reflexivity]).
+    (* Clean *)
+    split; [|intros N; congruence].
+    rewrite !um_clean_fst. rewrite (um_prune_idem s now now) by lia. reflexivity.
+  Qed.
 
   (* ---------------- C02: size() is the number of live keys right after a purging call
      (TTL > 0) ---------------- *)
+  Definition all_live (now : Z) (s : um K V) : Prop :=
+    forall x, In x (um_list s) -> (now < um_dl x)%Z.
+
+  Lemma all_live_prune : forall t (s : um K V) now, um_inv t s -> all_live now (fst (um_prune s now)).
+  Proof.
+    intros t s now (A & B & C & D). rewrite um_prune_fst. unfold all_live; simpl.
+    rewrite (dropdead_filter now _ C). intros x I. apply filter_In in I. destruct I as [_ L].
+    apply Z.ltb_lt in L; exact L.
+  Qed.
+
+  Lemma all_live_ins : forall now (s : um K V) k v a e s' b,
+      all_live now s -> (now < e)%Z -> um_ins s k v a e = (s', b) -> all_live now s'.
+  Proof.
+    intros now s k v a e s' b AL L E. unfold um_ins in E.
+    destruct (assoc k (um_list s)) as [x0|].
+    - destruct (a_upd a); inversion E; subst; clear E; [|exact AL].
+      unfold all_live; simpl. intros x I. apply in_app_or in I. destruct I as [I|[I|[]]].
+      + apply AL. eapply in_remk; exact I.
+      + subst x. unfold um_dl; simpl. exact L.
+    - destruct (a_ins a); inversion E; subst; clear E; [|exact AL].
+      unfold all_live; simpl. intros x I. apply in_app_or in I. destruct I as [I|[I|[]]].
+      + apply AL. exact I.
+      + subst x. unfold um_dl; simpl. exact L.
+  Qed.
+
+  Lemma all_live_erase : forall now (s : um K V) k s' b,
+      all_live now s -> um_erase s k = (s', b) -> all_live now s'.
+  Proof.
+    intros now s k s' b AL E. unfold um_erase in E.
+    destruct (assoc k (um_list s)) as [x0|]; inversion E; subst; clear E; [|exact AL].
+    unfold all_live; simpl. intros x I. apply AL. eapply in_remk; exact I.
+  Qed.
+
+  Lemma all_live_ins_range : forall now a e l (s : um K V) n s' n',
+      all_live now s -> (now < e)%Z -> um_ins_range s l a e n = (s', n') -> all_live now s'.
+  Proof.
+    induction l as [|[[z k] v] r IH]; intros s n s' n' AL L E; simpl in E.
+    - inversion E; subst; exact AL.
+    - destruct (um_ins s k v a e) as [s1 b] eqn:E1.
+      eapply IH; [eapply all_live_ins; [exact AL | exact L | exact E1] | exact L | exact E].
+  Qed.
+
+  Lemma all_live_erase_range : forall now l (s : um K V) n s' n',
+      all_live now s -> um_erase_range s l n = (s', n') -> all_live now s'.
+  Proof.
+    induction l as [|k r IH]; intros s n s' n' AL E; simpl in E.
+    - inversion E; subst; exact AL.
+    - destruct (um_erase s k) as [s1 b] eqn:E1.
+      eapply IH; [eapply all_live_erase; [exact AL | exact E1] | exact E].
+  Qed.
+
+  (* on a state without dead entries the purge is the identity *)
+  Lemma um_prune_live_id : forall now (s : um K V), all_live now s -> fst (um_prune s now) = s.
+  Proof.
+    intros now s AL. rewrite um_prune_fst, (dropdead_live now _ AL). apply um_with_self.
+  Qed.
+
   Theorem um_all_live_after : forall t (s : um K V) o now rnd s' r,
       um_inv t s -> (t <= now)%Z -> (0 < um_ttl s)%Z -> purging o = true ->
       um_step s o now rnd = (s', r) ->
       forall x, In x (um_list s') -> (now < um_dl x)%Z.
-  Admitted.
+  Proof.
+    intros t s o now rnd s' r I L T P E.
+    pose proof (all_live_prune t s now I) as AP.
+    assert (Le : (now < now + ms (um_ttl s))%Z) by (unfold ms; lia).
+    change (all_live now s').
+    unfold um_step in E; destruct o; simpl in P; try discriminate;
+      try (inversion E; subst; exact AP).
+    - destruct (um_ins _ k v a _) as [s1 b] eqn:E1. inversion E; subst; clear E.
+      eapply all_live_ins; [exact AP | exact Le | exact E1].
+    - destruct (um_ins_range _ l a _ 0) as [s1 n] eqn:E1. inversion E; subst; clear E.
+      eapply all_live_ins_range; [exact AP | exact Le | exact E1].
+    - destruct (um_erase _ k) as [s1 b] eqn:E1. inversion E; subst; clear E.
+      eapply all_live_erase; [exact AP | exact E1].
+    - destruct (um_erase_range _ l 0) as [s1 n] eqn:E1. inversion E; subst; clear E.
+      eapply all_live_erase_range; [exact AP | exact E1].
+    - destruct (um_prune s now) as [s0 n] eqn:E1. inversion E; subst; clear E. exact AP.
+  Qed.
 
   (* ---------------- C18: a range call is the same single calls in order (TTL > 0) ------ *)
+  Lemma um_step_ins_live : forall now (s0 : um K V) z k v a rnd, all_live now s0 ->
+      um_step s0 (Insert z k v a) now rnd =
+      (let '(s1, b) := um_ins s0 k v a (now + ms (um_ttl s0))%Z in (s1, RB b)).
+  Proof.
+    intros now s0 z k v a rnd AL. unfold um_step. cbv zeta.
+    rewrite (um_prune_live_id now s0 AL). reflexivity.
+  Qed.
+
+  Lemma um_step_erase_live : forall now (s0 : um K V) k rnd, all_live now s0 ->
+      um_step s0 (Erase k) now rnd = (let '(s1, b) := um_erase s0 k in (s1, RB b)).
+  Proof.
+    intros now s0 k rnd AL. unfold um_step. cbv zeta.
+    rewrite (um_prune_live_id now s0 AL). reflexivity.
+  Qed.
+
+  Lemma um_ins_range_fold : forall a now rnd ttl0 l (s0 : um K V) n,
+      all_live now s0 -> um_ttl s0 = ttl0 -> (0 < ttl0)%Z ->
+      um_ins_range s0 l a (now + ms ttl0)%Z n =
+      fold_left (fun '(s0, n0) '(ttl, k, v) =>
+                   match um_step s0 (Insert ttl k v a) now rnd with
+                   | (s1, RB true) => (s1, S n0)
+                   | (s1, _) => (s1, n0)
+                   end) l (s0, n).
+  Proof.
+    induction l as [|[[z k] v] r IH]; intros s0 n AL T P; [reflexivity|].
+    cbn [fold_left um_ins_range].
+    rewrite (um_step_ins_live now s0 z k v a rnd AL), T.
+    assert (Le : (now < now + ms ttl0)%Z) by (unfold ms; lia).
+    destruct (um_ins s0 k v a (now + ms ttl0)%Z) as [s1 b] eqn:E1.
+    pose proof (all_live_ins _ _ _ _ _ _ _ _ AL Le E1) as AL1.
+    apply um_ins_effect in E1. destruct E1 as (T1 & _).
+    destruct b; apply IH; try assumption; congruence.
+  Qed.
+
   Theorem um_insert_range_singles : forall t (s : um K V) l a now rnd,
       um_inv t s -> (t <= now)%Z -> (0 < um_ttl s)%Z ->
       um_step s (InsertRange l a) now rnd =
@@ -84,7 +848,33 @@ Section UmFacts.
                                     | (s1, _) => (s1, n0)
                                     end) l (fst (um_prune s now), 0)
        in (s', RN n)).
-  Admitted.
+  Proof.
+    intros t s l a now rnd I L T.
+    change (um_step s (InsertRange l a) now rnd)
+      with (let '(s1, n) := um_ins_range (fst (um_prune s now)) l a (now + ms (um_ttl s))%Z 0
+            in (s1, RN (K := K) (V := V) n)).
+    rewrite (um_ins_range_fold a now rnd (um_ttl s) l (fst (um_prune s now)) 0
+               (all_live_prune t s now I) (um_prune_ttl s now) T).
+    reflexivity.
+  Qed.
+
+  Lemma um_erase_range_fold : forall now rnd l (s0 : um K V) n,
+      all_live now s0 ->
+      um_erase_range s0 l n =
+      fold_left (fun '(s0, n0) k =>
+                   match um_step s0 (Erase k) now rnd with
+                   | (s1, RB true) => (s1, S n0)
+                   | (s1, _) => (s1, n0)
+                   end) l (s0, n).
+  Proof.
+    induction l as [|k r IH]; intros s0 n AL; [reflexivity|].
+    cbn [fold_left um_erase_range].
+    rewrite (um_step_erase_live now s0 k rnd AL).
+    destruct (um_erase s0 k) as [s1 b] eqn:E1.
+    pose proof (all_live_erase _ _ _ _ _ AL E1) as AL1.
+    destruct b; apply IH; assumption.
+  Qed.
+
   Theorem um_erase_range_singles : forall t (s : um K V) l now rnd,
       um_inv t s -> (t <= now)%Z ->
       um_step s (EraseRange l) now rnd =
@@ -94,7 +884,15 @@ Section UmFacts.
                                     | (s1, _) => (s1, n0)
                                     end) l (fst (um_prune s now), 0)
        in (s', RN n)).
-  Admitted.
+  Proof.
+    intros t s l now rnd I L.
+    change (um_step s (EraseRange l) now rnd)
+      with (let '(s1, n) := um_erase_range (fst (um_prune s now)) l 0
+            in (s1, RN (K := K) (V := V) n)).
+    rewrite (um_erase_range_fold now rnd l (fst (um_prune s now)) 0 (all_live_prune t s now I)).
+    reflexivity.
+  Qed.
+
   Theorem um_find_range_singles : forall t (s : um K V) l pk now rnd,
       um_inv t s -> (t <= now)%Z ->
       um_step s (FindRange l pk) now rnd =
@@ -103,32 +901,90 @@ Section UmFacts.
                              | RO o => o | _ => None end)) l)) /\
       um_step s (FindRangeFill l pk) now rnd = um_step s (FindRange l pk) now rnd /\
       (forall k, fst (um_step (fst (um_prune s now)) (Find k pk) now rnd) = fst (um_prune s now)).
-  Admitted.
+  Proof.
+    intros t s l pk now rnd I L. unfold um_step. cbv zeta. simpl fst. simpl snd.
+    rewrite (um_prune_idem s now now) by lia.
+    split; [reflexivity|]. split; [reflexivity|]. intros k; reflexivity.
+  Qed.
 
   (* ---------------- C19: calls without effect only purge; purging is unobservable except
      through size()/empty() ---------------- *)
   Lemma um_find_is_purge : forall (s : um K V) k pk now rnd,
       fst (um_step s (Find k pk) now rnd) = fst (um_prune s now).
-  Admitted.
+  Proof. intros; reflexivity. Qed.
+
   Lemma um_rejected_insert_is_purge : forall (s : um K V) ttl k v a now rnd s',
       um_step s (Insert ttl k v a) now rnd = (s', RB false) -> s' = fst (um_prune s now).
-  Admitted.
+  Proof.
+    intros s ttl k v a now rnd s' E. unfold um_step in E.
+    destruct (um_ins _ k v a _) as [s1 b] eqn:E1. inversion E; subst; clear E.
+    apply um_ins_effect in E1. destruct E1 as (_ & _ & _ & R & _). apply R; reflexivity.
+  Qed.
+
   Lemma um_erase_absent_is_purge : forall (s : um K V) k now rnd s',
       um_step s (Erase k) now rnd = (s', RB false) -> s' = fst (um_prune s now).
-  Admitted.
-  (* two states that agree after purging at [now] are indistinguishable by every later insert,
-     erase, lookup, clean or clear (all but size()/empty()): same result and the very same successor state *)
-  Theorem um_purge_unobservable : forall t (s1 s2 : um K V) now now' o rnd,
-      um_inv t s1 -> um_inv t s2 -> (now <= now')%Z ->
+  Proof.
+    intros s k now rnd s' E. unfold um_step in E.
+    destruct (um_erase _ k) as [s1 b] eqn:E1. inversion E; subst; clear E.
+    apply um_erase_effect in E1. destruct E1 as (_ & _ & _ & R & _). apply R; reflexivity.
+  Qed.
+
+  (* STATEMENT-PROBLEM: the statement below (um_purge_unobservable, as given) is FALSE for
+     o = Clean: clean reports how many entries its purge removed, so it does distinguish a
+     state that still holds dead entries from its purged twin.  Counterexample (proved below
+     as um_purge_unobservable_clean_counterexample):
+       s1 = {| um_ttl := 1; um_list := [(1, (7, 5))] |}, s2 = {| um_ttl := 1; um_list := [] |},
+       um_inv 0 s1, um_inv 0 s2, now = now' = 5, fst (um_prune s1 5) = s2 = fst (um_prune s2 5),
+       um_step s1 Clean 5 [] = (s2, RN 1)  but  um_step s2 Clean 5 [] = (s2, RN 0).
+     Original statement, kept verbatim (it cannot be proved, so it is not declared):
+
+       (* two states that agree after purging at [now] are indistinguishable by every later insert,
+          erase, lookup, clean or clear (all but size()/empty()): same result and the very same successor state *)
+       Theorem um_purge_unobservable : forall t (s1 s2 : um K V) now now' o rnd,
+           um_inv t s1 -> um_inv t s2 -> (now <= now')%Z ->
+           fst (um_prune s1 now) = fst (um_prune s2 now) ->
+           purging o = true \/ o = Clear ->
+           um_step s1 o now' rnd = um_step s2 o now' rnd.
+
+     Closest true variant, um_purge_unobservable_ok: the very same successor state for every
+     such call, and the same result too for every such call except Clean (whose result is the
+     number of dead entries, i.e. size() before minus size() after).  The invariants are not
+     needed. *)
+  Theorem um_purge_unobservable_ok : forall (s1 s2 : um K V) now now' o rnd,
+      (now <= now')%Z ->
       fst (um_prune s1 now) = fst (um_prune s2 now) ->
       purging o = true \/ o = Clear ->
-      um_step s1 o now' rnd = um_step s2 o now' rnd.
-  Admitted.
+      fst (um_step s1 o now' rnd) = fst (um_step s2 o now' rnd) /\
+      (o <> Clean -> um_step s1 o now' rnd = um_step s2 o now' rnd).
+  Proof.
+    intros s1 s2 now now' o rnd L E [P|C].
+    - assert (EP : fst (um_prune s1 now') = fst (um_prune s2 now')).
+      { rewrite <- (um_prune_idem s1 now now' L), <- (um_prune_idem s2 now now' L), E. reflexivity. }
+      destruct (um_purge_first_ok s1 o now' rnd P) as [A1 B1].
+      destruct (um_purge_first_ok s2 o now' rnd P) as [A2 B2].
+      split.
+      + rewrite A1, A2, EP. reflexivity.
+      + intros N. rewrite (B1 N), (B2 N), EP. reflexivity.
+    - subst o.
+      assert (T : um_ttl s1 = um_ttl s2).
+      { rewrite <- (um_prune_ttl s1 now), <- (um_prune_ttl s2 now), E. reflexivity. }
+      simpl. unfold um_with. rewrite T. split; [reflexivity | intros _; reflexivity].
+  Qed.
+
+  (* the result of Clean is determined by the sizes: the only observable difference *)
+  Lemma um_clean_result : forall (s : um K V) now rnd s' r,
+      um_step s Clean now rnd = (s', r) -> r = RN (um_size s - um_size s') /\ s' = fst (um_prune s now).
+  Proof.
+    intros s now rnd s' r E. unfold um_step in E.
+    pose proof (um_prune_fst s now) as Pf. pose proof (um_prune_snd s now) as Ps.
+    destruct (um_prune s now) as [s0 n]. simpl in Pf, Ps. inversion E; subst; clear E.
+    split; [|reflexivity]. unfold um_size; simpl. f_equal. lia.
+  Qed.
 
   (* ---------------- C20: clear() ---------------- *)
   Lemma um_clear_is_init : forall (s : um K V) now rnd,
       um_step s Clear now rnd = (um_init (um_ttl s), RUnit).
-  Admitted.
+  Proof. intros; reflexivity. Qed.
 End UmFacts.
 
 (* ---------------- TTL 0: the properties' statements fail (known finding F7) ----------- *)
@@ -138,7 +994,7 @@ Example um_ttl0_size_counts_dead_refuted :
   let s0 := um_init (K := Z) (V := Z) 0 in
   let s1 := fst (um_step s0 (Insert 0 1 7 {| a_ins := true; a_upd := true |}) 5 []) in
   um_size s1 = 1%nat /\ um_view s1 5 1 = None.
-Admitted.
+Proof. vm_compute. split; reflexivity. Qed.
 (* C18: insert_range({1,7},{1,8}, allow::insert) returns 1, the two single inserts return 2 *)
 Example um_ttl0_range_differs_refuted :
   let s0 := um_init (K := Z) (V := Z) 0 in
@@ -146,4 +1002,32 @@ Example um_ttl0_range_differs_refuted :
   snd (um_step s0 (InsertRange [(0, 1, 7); (0, 1, 8)] ins) 5 []) = RN 1%nat /\
   (let '(s1, r1) := um_step s0 (Insert 0 1 7 ins) 5 [] in
    let '(s2, r2) := um_step s1 (Insert 0 1 8 ins) 5 [] in (r1, r2)) = (RB true, RB true).
-Admitted.
+Proof. vm_compute. split; reflexivity. Qed.
+
+(* ---------------- the two STATEMENT-PROBLEM counterexamples, machine-checked ------------ *)
+Lemma um_cex_inv : um_inv (K := Z) (V := Z) 0 {| um_ttl := 1; um_list := [(1, (7, 5))] |}.
+Proof.
+  unfold um_inv; simpl. split; [lia|]. split; [constructor; [simpl; tauto | constructor]|].
+  split; [repeat constructor|]. intros x [E|[]]; subst x. vm_compute. discriminate.
+Qed.
+
+(* um_purge_first (as originally stated) fails for Clean *)
+Example um_purge_first_clean_counterexample :
+  let s : um Z Z := {| um_ttl := 1; um_list := [(1, (7, 5))] |} in
+  um_inv 0 s /\ purging (K := Z) (V := Z) Clean = true /\
+  um_step s Clean 5 [] <> um_step (fst (um_prune s 5)) Clean 5 [].
+Proof.
+  split; [exact um_cex_inv|]. split; [reflexivity|]. vm_compute. intro X; discriminate X.
+Qed.
+
+(* um_purge_unobservable (as originally stated) fails for Clean *)
+Example um_purge_unobservable_clean_counterexample :
+  let s1 : um Z Z := {| um_ttl := 1; um_list := [(1, (7, 5))] |} in
+  let s2 : um Z Z := {| um_ttl := 1; um_list := [] |} in
+  um_inv 0 s1 /\ um_inv 0 s2 /\ 5 <= 5 /\ fst (um_prune s1 5) = fst (um_prune s2 5) /\
+  (purging (K := Z) (V := Z) Clean = true \/ Clean = Clear (K := Z) (V := Z)) /\
+  um_step s1 Clean 5 [] <> um_step s2 Clean 5 [].
+Proof.
+  split; [exact um_cex_inv|]. split; [exact (um_inv_init 1 0 ltac:(lia))|]. split; [lia|].
+  split; [reflexivity|]. split; [left; reflexivity|]. vm_compute. intro X; discriminate X.
+Qed.
